@@ -128,6 +128,15 @@ Section Den.
   Qed.
 End Den.
 
+Lemma den_chk_reject : forall ds pd hp hs tbl name d r, lookup tbl name = Some d ->
+  checks_reject hp hs d r = true -> den_chk ds pd hp hs tbl name r = None.
+Proof.
+  induction tbl as [|x tbl]; simpl; intros name d r L C; [discriminate|].
+  destruct (String.eqb (m_name x) name).
+  - injection L as ->. rewrite C. reflexivity.
+  - eapply IHtbl; eauto.
+Qed.
+
 (* ---- hexadecimal text ---- *)
 Lemma hex_digit_val : forall n, 0 <= n < 16 -> hex_val (hex_digit n) = Some n.
 Proof.
